@@ -391,17 +391,31 @@ class GeoPolygon(PolygonBase, SimpleShapeMixin):
         test_line = (coord, Coordinate(180, float(coord.latitude)))
         _intersections = 0
         for edge in zip(polygon, [*polygon[1:], polygon[0]]):
+            if (
+                edge[0].latitude == edge[1].latitude == coord.latitude and
+                min(edge[0].longitude, edge[1].longitude)
+                <= coord.longitude
+                <= max(edge[0].longitude, edge[1].longitude)
+            ):
+                # Lies on a boundary edge that is parallel to the test line
+                return include_boundary
+
             intersection = find_line_intersection(test_line, edge)
             if not intersection:
                 continue
 
-            if intersection[1] and not include_boundary:
-                # Lies on boundary, no need to continue
-                return False
+            if intersection[1]:
+                if intersection[0].to_float()[:2] == coord.to_float()[:2]:
+                    # Lies on boundary, no need to continue
+                    return include_boundary
 
-            if include_boundary or not intersection[1]:
-                # If boundaries are allowed, or is not a boundary intersection
-                _intersections += 1
+                # The test line passes through a vertex shared by two edges; count
+                # only the edge that rises above the test line so that a crossing is
+                # counted once and a vertex that merely touches the line is not.
+                if max(edge[0].latitude, edge[1].latitude) <= coord.latitude:
+                    continue
+
+            _intersections += 1
 
         return _intersections > 0 and _intersections % 2 != 0
 
